@@ -69,7 +69,7 @@ func famC19(r *hx.Rng, o *sink, e *env) {
 	for _, w := range delayWitnesses {
 		emitBD(w[0], w[1], "witness")
 	}
-	n := hx.N(800, 20000)
+	n := hx.N(800, 8000)
 	for i := 0; i < n; i++ {
 		switch r.Intn(5) {
 		case 0: // exact multiples and their neighbours
@@ -118,7 +118,7 @@ func famC19(r *hx.Rng, o *sink, e *env) {
 	emitDP(u(5), hp(1, max64-5), 100, clienttypes.NewHeight(1, max64), 0, 6, "witness-height-wrap")
 	emitDP(u(5), hp(1, max64-5), 100, clienttypes.NewHeight(2, 0), 0, 6, "witness-height-wrap-later-revision")
 	emitDP(u(1<<63), hp(1, 1<<63), 0, clienttypes.NewHeight(1, 0), 1 << 63, 1 << 63, "witness-both-wrap")
-	n = hx.N(1200, 30000)
+	n = hx.N(1200, 12000)
 	for i := 0; i < n; i++ {
 		pt := r.U64B()
 		dt := r.U64B()
